@@ -1402,3 +1402,164 @@ def r_invcode(ctx) -> RuleResult:
                 return res
     res.counts = {"sample_atoms": len(atoms)}
     return res
+
+
+# --------------------------------------------------------------------------- R-SERIALSAMPLE
+
+
+def _iso_exists(atoms_a: dict, edges_a: set, atoms_b: dict, edges_b: set) -> bool:
+    """is there a one-to-one map of the atoms of a onto those of b that keeps each atom's colour (the dict values) and the
+    edge set?  Small backtracking search, candidates restricted by colour and degree."""
+    if len(atoms_a) != len(atoms_b) or len(edges_a) != len(edges_b):
+        return False
+    def deg(edges, n):
+        return sum(1 for e in edges if n in e)
+    ka = {n: (c, deg(edges_a, n)) for n, c in atoms_a.items()}
+    kb = {n: (c, deg(edges_b, n)) for n, c in atoms_b.items()}
+    if sorted(map(repr, ka.values())) != sorted(map(repr, kb.values())):
+        return False
+    order = sorted(atoms_a, key=lambda n: (sum(1 for x in kb.values() if x == ka[n]), -ka[n][1]))
+    adj_a = {n: {next(iter(e - {n})) for e in edges_a if n in e and len(e) == 2} for n in atoms_a}
+    adj_b = {n: {next(iter(e - {n})) for e in edges_b if n in e and len(e) == 2} for n in atoms_b}
+    steps = [0]
+
+    def go(i, m, used):
+        steps[0] += 1
+        if steps[0] > 200000:
+            raise AnalysisError("isomorphism search too long")
+        if i == len(order):
+            return True
+        a = order[i]
+        for b in atoms_b:
+            if b in used or kb[b] != ka[a]:
+                continue
+            if all((m[x] in adj_b[b]) for x in adj_a[a] if x in m) and all((x not in m) or (m[x] in adj_b[b]) == (x in adj_a[a]) for x in m):
+                m[a] = b
+                used.add(b)
+                if go(i + 1, m, used):
+                    return True
+                del m[a]
+                used.discard(b)
+        return False
+    return go(0, {}, set())
+
+
+@rule("R-SERIALSAMPLE")
+def r_serialsample(ctx) -> RuleResult:
+    res = RuleResult("R-SERIALSAMPLE", "the strings the serializer makes of sample molecules are sentences of the grammar that spell out the molecule: Hill formula = element counts, indices in blocks of rising atomic number, every bond once as (a-b) with a<b in ascending order, every isotope and radical label on its atom - the string parses back to an isomorphic molecule")
+    import operator
+    import re as _re
+    from collections import Counter
+    from ..concrete import PathEval, PState, SampleGraph, SampleNx, _Unknown
+    from ..gram import det_of, grammars
+    from .common import entry, sample_evaluator
+    from .spec import IUPAC_SYMBOLS
+    ser = entry(ctx, "serialize")
+    const = lambda n: ctx.repo.const("tucan.graph_attributes", n)  # noqa: E731
+    SYM, Z, MASS_, RAD_, PART, CHG_ = (const(n) for n in ("ELEMENT_SYMBOL", "ATOMIC_NUMBER", "MASS", "RAD", "PARTITION", "CHG"))
+    znum = {s_: i + 1 for i, s_ in enumerate(IUPAC_SYMBOLS)}
+    G = grammars(ctx)
+    det = det_of(G.ebnf, "tucan" if "tucan" in G.ebnf else next(iter(G.ebnf)), (), charlevel=True)
+
+    def mol(atoms, bonds, order=None):
+        """atoms: label -> (symbol, mass, rad, partition); listed in `order`"""
+        nodes = {}
+        for lab in (order or list(atoms)):
+            s_, m_, r_, p_ = atoms[lab]
+            d = {SYM: s_, Z: znum[s_], PART: p_}
+            if m_:
+                d[MASS_] = m_
+            if r_:
+                d[RAD_] = r_
+            if lab % 3 == 0:
+                d[CHG_] = 1            # data the string does not show
+            nodes[lab] = d
+        return nodes, [(a, b, {}) for a, b in bonds]
+    samples = [
+        ("ethanol with two deuterium atoms on one carbon and one on the oxygen (the order by atomic number is not the order of the labels)",
+         mol({0: ("O", None, None, 0), 1: ("C", None, None, 1), 2: ("C", None, None, 2), 3: ("H", 2, None, 3), 4: ("H", None, None, 4), 5: ("H", None, None, 4), 6: ("H", None, None, 4),
+              7: ("H", 2, None, 5), 8: ("H", 2, None, 5)}, [(0, 1), (1, 2), (0, 3), (2, 4), (2, 5), (2, 6), (1, 7), (1, 8)], order=[4, 0, 7, 2, 5, 1, 8, 3, 6])),
+        ("chloroform: one hydrogen next to carbon, another element three times", mol({0: ("Cl", None, None, 0), 1: ("C", None, None, 1), 2: ("Cl", None, None, 0), 3: ("H", None, None, 2), 4: ("Cl", None, None, 0)},
+                                                                                        [(1, 0), (1, 2), (1, 3), (1, 4)])),
+        ("a 13C methyl radical: mass and radical on one atom", mol({0: ("H", None, None, 0), 1: ("H", None, None, 0), 2: ("C", 13, 2, 1), 3: ("H", None, None, 0)}, [(2, 0), (2, 1), (2, 3)])),
+        ("sodium chloride: two atoms, no bond, no carbon", mol({0: ("Na", None, None, 1), 1: ("Cl", 37, None, 0)}, [])),
+        ("helium-3: one atom", mol({0: ("He", 3, None, 0)}, [])),
+        ("decane skeleton with a triplet carbene at one end: indices above nine", mol({i: ("C", None, 3 if i == 9 else None, min(i, 9 - i)) for i in range(10)}, [(i, i + 1) for i in range(9)], order=[9, 3, 0, 7, 1, 8, 2, 6, 4, 5])),
+        ("water and hydrogen peroxide side by side: two components", mol({0: ("O", None, None, 0), 1: ("H", None, None, 1), 2: ("H", None, None, 1), 3: ("O", None, None, 2), 4: ("O", None, None, 2), 5: ("H", 3, None, 3), 6: ("H", None, None, 4)},
+                                                                           [(0, 1), (0, 2), (3, 4), (3, 5), (4, 6)], order=[6, 5, 4, 3, 2, 1, 0])),
+    ]
+    ps = params_of(ser.node)
+    extra = {"nx": SampleNx(), "lt": operator.lt, "gt": operator.gt, "eq": operator.eq, "le": operator.le, "ge": operator.ge, "ne": operator.ne}
+
+    def hill(counts):
+        syms = sorted(counts)
+        if "C" in counts:
+            syms = ["C"] + (["H"] if "H" in counts else []) + [s_ for s_ in syms if s_ not in ("C", "H")]
+        return "".join(f"{s_}{counts[s_] if counts[s_] > 1 else ''}" for s_ in syms)
+
+    def judge(nodes, edges, text):
+        if not isinstance(text, str):
+            return f"the result is not a string ({type(text).__name__})"
+        if not det.accepts(text):
+            return f"`{text}` is not a sentence of the grammar"
+        formula, _, rest = text.partition("/")
+        tuples_, _, attrs_ = rest.partition("/")
+        counts = Counter(d[SYM] for d in nodes.values())
+        if formula != hill(counts):
+            return f"the formula is `{formula}`, the molecule has `{hill(counts)}`"
+        # index -> element: the formula's atoms in order of rising atomic number (what the parser does)
+        expanded = [s_ for s_, n_ in _re.findall(r"([A-Z][a-z]?)(\d*)", formula) for _ in range(int(n_ or 1))]
+        by_index = {i + 1: s_ for i, s_ in enumerate(sorted(expanded, key=lambda s_: znum[s_]))}
+        pairs = [(int(a), int(b)) for a, b in _re.findall(r"\((\d+)-(\d+)\)", tuples_)]
+        if any(a >= b for a, b in pairs):
+            return f"a bond tuple of `{tuples_}` is not written as (a-b) with a<b"
+        if pairs != sorted(set(pairs)):
+            return f"the bond tuples `{tuples_}` are not in ascending order without repetition"
+        labels = {}
+        last = 0
+        for idx, body in _re.findall(r"\((\d+):([^)]*)\)", attrs_):
+            if int(idx) <= last:
+                return f"the attribute blocks `{attrs_}` are not in ascending order of the index, one per atom"
+            last = int(idx)
+            kv = dict(x.split("=") for x in body.split(","))
+            labels[int(idx)] = (int(kv["mass"]) if "mass" in kv else None, int(kv["rad"]) if "rad" in kv else None)
+        if any(i not in by_index for e_ in pairs for i in e_) or any(i not in by_index for i in labels):
+            return "an index of the string is larger than the number of atoms of the formula"
+        a_atoms = {n: (d[SYM], d.get(MASS_), d.get(RAD_)) for n, d in nodes.items()}
+        a_edges = {frozenset((a, b)) for a, b, _d in edges}
+        b_atoms = {i: (s_,) + labels.get(i, (None, None)) for i, s_ in by_index.items()}
+        b_edges = {frozenset(e_) for e_ in pairs}
+        if not _iso_exists(a_atoms, a_edges, b_atoms, b_edges):
+            return f"`{text}` does not spell out the molecule: no one-to-one map of its atoms onto the indices keeps element, isotope mass, radical and the bonds"
+        return None
+    n_followed = 0
+    for what, (nodes, edges) in samples:
+        pe, env = sample_evaluator(ctx, ser, extra)
+        env[ps[0]] = SampleGraph(nodes, edges)
+        from .common import bind_defaults
+        bind_defaults(ser.node, env)
+        try:
+            falls, lefts = pe.block(ser.node.body, [PState(env)])
+        except (NameError, UnboundLocalError):
+            raise
+        except AnalysisError:
+            raise
+        except Exception:
+            continue
+        rets = [v_ for _s, how, v_ in lefts if how == "return"]
+        raised = [1 for _s, how, _v in lefts if how == "raise"]
+        if pe.gaps or falls or not (rets or raised) or any(isinstance(v_, _Unknown) for v_ in rets):
+            continue
+        n_followed += 1
+        if raised and not rets:
+            res.inst(ser.fq, f"sample molecule: {what}", "fail")
+            res.fail(Finding("R-SERIALSAMPLE", ser.module.rel, ser.qualname, f"{what}: raises", f"following {ser.name} on a sample molecule ({what}) ends in a raise on every way through", line=ser.node.lineno))
+            break
+        verdicts = [judge(nodes, edges, v_) for v_ in rets]
+        bad = all(v_ is not None for v_ in verdicts)
+        res.inst(ser.fq, f"sample molecule: {what}" + (f" -> `{rets[0]}`" if not bad else ""), "fail" if bad else "ok")
+        if bad:
+            res.fail(Finding("R-SERIALSAMPLE", ser.module.rel, ser.qualname, what, f"following {ser.name} on a sample molecule ({what}): {verdicts[0]}", line=ser.node.lineno))
+            break
+    res.counts = {"sample_molecules_followed": n_followed}
+    return res
